@@ -91,12 +91,19 @@ func runCmds(out *core.Outcome, img []byte, areaOff uint32, recs []rec, origs ma
 	} else {
 		O("cmd-list", strings.Join(wantTextLines(want), "\n"), strings.Join(gotTextLines(text, want), "\n"))
 	}
+	if err == nil { // M: what the command prints is, byte for byte, the modelled Image.String()
+		out.Checks = append(out.Checks, core.Check{Tag: "M", What: "cmd-text", Req: "text " + core.Hex(img),
+			Exp: fmt.Sprintf("%d %d", core.FNV([]byte(text)), len(text))})
+	}
 
 	js, err := runTool2(dir, rom, "json")
 	if err != nil {
 		O("cmd-json", wantJSON(areaOff, want), "error: "+err.Error())
 	} else {
 		O("cmd-json", wantJSON(areaOff, want), gotJSON([]byte(js), want))
+	}
+	if err == nil { // M: the keys and values of the command's (indented) JSON are the modelled structure
+		out.Checks = append(out.Checks, core.Check{Tag: "M", What: "cmd-json-fields", Req: "json " + core.Hex(img), Exp: canonJSON([]byte(js))})
 	}
 
 	// extract: one file per non-empty record, holding the (decompressed) content
